@@ -39,6 +39,9 @@ class C07(Prop):
             kind, b, x = got
             model = rng.choice(["poisson", "poisson", "excitation"])
             acc = rng.choice(["default", "high"]) if model == "poisson" else "default"
+            if model == "excitation" and sys["bkind"] == "zero" and not np.any(sys["lb"]) and rng.random() < 0.5:
+                # darkness: every capture exactly zero (all sources off, no baseline) -- an in-gamut target like any other
+                b = np.zeros(sys["m"]); kind = "dark"
             # Poisson: per-receptor importance weights (the documented objective is the WEIGHTED likelihood) and the target fitted as one row of a batch
             w = [1.0] * sys["m"]; extra = []; bs = 1; row = 0
             if model == "poisson":
@@ -81,6 +84,9 @@ class C07(Prop):
         B = np.asarray(rows, dtype=float)
         if case.get("intB"):
             B = B.astype(np.int64)
+        elif extra and (len(extra) + int(case["bs"])) % 2 == 0:
+            B = np.asfortranarray(B)          # a transposed stack of targets: column-major memory order
+        core.watch(B)
         kw = dict(HI) if case["acc"] == "high" else ({"solver": "CLARABEL"} if case["model"] == "poisson" else {})
         if extra:
             kw["batch_size"] = case["bs"]
